@@ -1857,10 +1857,18 @@ def _underscores(r, digits, allow_leading):
     return "".join(out)
 
 
+def _lead0(r, digs):
+    """decimal digits with redundant leading zeros, also separated by an underscore (`007`, `0_1`, `00_25`): the
+    value is unchanged, but the lexer takes its leading-zero path"""
+    if r.random() < 0.12:
+        return r.choice(["0", "00", "0_", "0_0", "00_"]) + digs
+    return digs
+
+
 def spell_int(r, v, radices=("d", "b", "o", "x"), upper_prefix=0.08):
     rad = r.choice(radices)
     if rad == "d":
-        return _underscores(r, str(v), False)
+        return _lead0(r, _underscores(r, str(v), False))
     digs = {"b": format(v, "b"), "o": format(v, "o"), "x": format(v, "x")}[rad]
     if rad == "x":
         digs = "".join(ch.upper() if r.random() < 0.5 else ch for ch in digs)
@@ -1877,7 +1885,7 @@ def spell_float(r, trailing_dot_exp=False):
         digs = _underscores(r, str(mag), r.random() < 0.2)
         ex = r.choice("eE") + r.choice(["", "+", "-"]) + digs
     shape = r.choice(["i.f", "i.f", ".f", "i.", "ie", "i.fe"])
-    ipu, fpu = _underscores(r, ip, False), _underscores(r, fp, False)
+    ipu, fpu = _lead0(r, _underscores(r, ip, False)), _underscores(r, fp, False)
     if shape == "i.f":
         return ipu + "." + fpu + ex
     if shape == ".f":
